@@ -19,6 +19,14 @@ def methods(light):
     return ms
 
 
+PRIME = [0]   # 0: nothing read before the copy; 1: every navigation attribute of every node has been read;
+              # 2: read, then one leaf detached and re-attached (same structure), then copied
+
+
+def _read_navigation(nd):
+    return (nd.size, nd.height, nd.depth, nd.leaves, nd.descendants, nd.ancestors, nd.path, nd.root, nd.siblings, nd.is_leaf, nd.is_root)
+
+
 def build(m, assign, targets, light=False):
     """assign: class key per node; targets: {index: ('main', j) | ('ext', k)} for symlinks.
     Returns (nodes, ext nodes)."""
@@ -89,6 +97,13 @@ def build(m, assign, targets, light=False):
             tmp = type(nodes[i])("tmp") if not isinstance(nodes[i], anytree.AnyNode) else anytree.AnyNode(id="tmp")
             tmp.parent = nodes[i]
             tmp.parent = None
+    if PRIME[0]:
+        for nd in nodes:
+            _read_navigation(nd)
+        if PRIME[0] == 2 and m.n > 1:
+            last = m.n - 1          # the last node in pre-order is a leaf and the last child of its parent
+            nodes[last].parent = None
+            nodes[last].parent = nodes[m.par[last]]
     return nodes, ext
 
 
@@ -169,6 +184,15 @@ def check_copy(m, nodes, ext, entry, cp):
             why.append("copy shares a node with the original")
     if croot.parent is not None:
         why.append("copy root has a parent")
+    if not why:
+        # the copy answers navigation questions from ITS links (whatever the original had computed or remembered before)
+        for i in range(m.n):
+            c = mapping[i]
+            got = (c.size, c.height, c.depth, len(c.leaves), len(c.descendants), c.is_leaf, c.is_root, len(c.path))
+            exp = (m.size(i), m.height(i), m.depth(i), len(m.leaves(i)), m.size(i) - 1, not m.ch[i], m.par[i] is None, m.depth(i) + 1)
+            if got != exp or not all(type(x) is type(y) for x, y in zip(got, exp)):
+                why.append("navigation attributes of the copy of node %d are wrong: %r, expected %r" % (i, got, exp))
+                break
     import anytree
     from .. import pickcls
 
@@ -245,10 +269,12 @@ def apply_op(nodes_by_label, labels, op):
 def check_case(t, shape, assign, targets, light, only=None):
     m = tree.Model.from_shape(shape)
     labels = list(forest.LABELS[: m.n])
+    PRIME[0] = (m.n + sum(1 for a in assign if a in ("node", "user")) + len(targets) + (1 if light else 0)) % 3
+    t.c["copies_after_navigation_reads"] += 1 if PRIME[0] else 0
     nodes, ext = build(m, assign, targets, light)
     if nodes is None:
         return
-    ctx = {"shape": shape, "assign": list(assign), "targets": {str(k): list(v) for k, v in targets.items()}, "light": light}
+    ctx = {"shape": shape, "assign": list(assign), "targets": {str(k): list(v) for k, v in targets.items()}, "light": light, "primed": PRIME[0]}
     before = state_of(nodes, labels)
     ops = mutation_ops(m.n)
     for entry in range(m.n):
@@ -428,6 +454,6 @@ def run(tier):
         "bounds": {"cases": len(items)},
     }
     return {"tally": t, "coverage": cov,
-            "guards": ("copies", "nontrivial", "copies_with_symlinks", "mutations_of_copies", "mutations_of_originals",
+            "guards": ("copies_after_navigation_reads", "copies", "nontrivial", "copies_with_symlinks", "mutations_of_copies", "mutations_of_originals",
                        "slotted_hierarchy_copies"),
             "assumptions": ["tree depth far below the recursion limit", "classes are importable module-level classes (pickle requirement)"]}
